@@ -18,11 +18,8 @@ import (
 	"github.com/kaptinlin/gozod/pkg/regex"
 )
 
-// Pre-compiled regex patterns for ISO time and duration validation.
-var (
-	isoTimeRegex  = regexp.MustCompile(`^([01][0-9]|2[0-3]):[0-5][0-9](:[0-5][0-9]([.,][0-9]+)?)?$`)
-	durationRegex = regexp.MustCompile(`^P(?:\d+W|(?:\d+Y)?(?:\d+M)?(?:\d+D)?(?:T(?:\d+H)?(?:\d+M)?(?:\d+(?:[.,]\d+)?S)?)?)$`)
-)
+// Pre-compiled regex pattern for ISO duration validation.
+var durationRegex = regexp.MustCompile(`^P(?:\d+W|(?:\d+Y)?(?:\d+M)?(?:\d+D)?(?:T(?:\d+H)?(?:\d+M)?(?:\d+(?:[.,]\d+)?S)?)?)$`)
 
 // MACOptions configures MAC address validation.
 type MACOptions struct {
@@ -478,7 +475,11 @@ func ISOTimeWithOptions(value any, options ISOTimeOptions) bool {
 }
 
 // ISOTime reports whether the string is a valid ISO time format.
-func ISOTime(value any) bool { return matchString(value, isoTimeRegex) }
+//
+// It matches regex.DefaultTime, the pattern the iso_time check exports to JSON
+// Schema (hh:mm, optional :ss, optional fraction after '.'), so that the
+// validator and the exported pattern accept the same strings.
+func ISOTime(value any) bool { return matchString(value, regex.DefaultTime) }
 
 // ISODuration reports whether the string is a valid ISO 8601 duration format.
 func ISODuration(value any) bool {
